@@ -64,6 +64,9 @@ def gen_table(rng, name='t', max_rows=8, schema=SCHEMA, ties=False):
     nrows = rng.choice([0, 1, 2, 3, 5, max_rows]) if max_rows <= 8 else rng.randint(0, max_rows)
     if ties:
         nrows = rng.randint(2, max_rows)
+    if rng.random() < 0.03:
+        # once in a while a table well beyond the usual size: long scans, many groups, many ties
+        nrows = rng.randint(60, 220)
     nullp = {n: rng.choice([0, 0.2, 0.2, 0.6, 1.0] if not ties else [0, 0.2, 0.3]) for n, _ in schema}
     rows = []
     for r in range(nrows):
